@@ -36,6 +36,7 @@ type RunConfig struct {
 	AllocIsViolation bool
 	PanicIsViolation bool
 	SchedFixed       bool // option sched_fixed: no decision at blocking/exit switches (first enabled thread runs)
+	HrwScoreUF       bool // option hrw_score_uninterpreted: see model_symfloat.go
 	SamplePaths      int
 	ShadowBin        string // second solver cross-checking assertion verdicts ("" = off)
 	Forced           map[string]uint64 // interpreter replay: nondet values fixed to a model
